@@ -198,6 +198,8 @@ Converged ==
 \* C03: once the environment has stopped changing, the converged state is reached and kept
 EventuallyConverged == <>[]Converged
 \* C05 / C03: a target that is assigned stays assigned somewhere while it is discovered (no gap)
+\* (losing a pod together with its volume - ShrinkByOne, RecreatePod - is the fault itself, not a gap kvass makes)
+PlatformFault == pc = "idle" /\ pc' = "idle" /\ faults' # faults
 NoGap ==
-  [][\A t \in Targets : (t \in disc /\ t \in disc' /\ Holders(t) # {} /\ nsh' >= nsh) => Holders(t)' # {}]_allvars
+  [][\A t \in Targets : (t \in disc /\ t \in disc' /\ Holders(t) # {} /\ ~PlatformFault) => Holders(t)' # {}]_allvars
 =============================================================================
